@@ -5,7 +5,7 @@
     source are regenerated into Gen/FsWalk_gen.v on every run and the premises [backend_keys_ok], [walk_ok] (and
     the chain parameters) are discharged for them by kernel-checked instance obligations in checks/c19.py. *)
 From Coq Require Import List NArith Bool Permutation.
-From SV Require Import SM.FsChain SM.FsChainProofs SM.FsChainRel SM.FsChainWitness SM.FsChainRaw SM.FsChainCompose SM.FsChainComplete SM.FsChainNorm SM.FsChainForms SM.FsChainFormsProofs SM.FsChainWhole SM.FsChainWholeProofs SM.FsChainRead SM.FsChainReadProofs SM.FsChainMixed SM.FsChainMixedProofs SM.FsChainAdd SM.FsChainAddProofs SM.FsChainWalkGen SM.FsChainNoise SM.FsChainNoiseRaw SM.FsChainProperty SM.FsChainPropertyProofs.
+From SV Require Import SM.FsChain SM.FsChainProofs SM.FsChainRel SM.FsChainWitness SM.FsChainRaw SM.FsChainCompose SM.FsChainComplete SM.FsChainNorm SM.FsChainForms SM.FsChainFormsProofs SM.FsChainWhole SM.FsChainWholeProofs SM.FsChainRead SM.FsChainReadProofs SM.FsChainMixed SM.FsChainMixedProofs SM.FsChainAdd SM.FsChainAddProofs SM.FsChainWalkGen SM.FsChainNoise SM.FsChainNoiseRaw SM.FsChainProperty SM.FsChainPropertyProofs SM.FsState SM.FsStateProofs.
 Import ListNotations.
 Open Scope N_scope.
 
@@ -677,3 +677,74 @@ Theorem c19_property : forall s, source_ok s = true -> property_holds s.
 Proof. exact property_holds_for_every_ok_source. Qed.
 Example c19_property_hypotheses_satisfiable : source_ok witness_cfg = true.
 Proof. exact source_ok_satisfiable. Qed.
+
+(** ** Round 5: programs, not single calls - what walks and lookups leave behind. *)
+
+(** The theorems above describe one call.  They describe a history of calls if no call stores anything a later call
+    reads.  translate/c19_state.py takes a census of every store the walk / lookup methods of filesys.py (and the reading
+    side of vpk.py) make into [self], a class, a module-level container or a mutable default, and where the store stands
+    relative to the [yield]s (Gen/FsState_gen.v); SM/FsState.v gives it a meaning.  A walk is a generator whose consumer
+    takes all items ([None]) or n items and drops it ([Some n]: [break], [any()], [next(iter(fs))], an exception in the
+    loop body, [close()]).  For code that stores nothing, and for code that stores a folder's listing only after its
+    scan has finished, a complete walk lists the complete listing after any history of walks ... *)
+Theorem c19_walk_history_irrelevant : forall (F : Type) (scan : str -> list F) (keyf : str -> str),
+  (forall a b, keyf a = keyf b -> scan a = scan b) ->
+  forall d h folder, d <> WalkMemoWhileYielding -> walk_after F scan keyf d h folder = scan folder.
+Proof. exact walk_history_irrelevant. Qed.
+(** ... and every walk of the history hands its consumer a prefix of the complete listing. *)
+Theorem c19_walk_history_every_walk_is_a_prefix : forall (F : Type) (scan : str -> list F) (keyf : str -> str),
+  (forall a b, keyf a = keyf b -> scan a = scan b) ->
+  forall d h folder k, d <> WalkMemoWhileYielding ->
+  fst (walk_step F scan keyf d (run_walks F scan keyf d [] h) folder k) = consume F k (scan folder).
+Proof. exact walk_history_every_walk_is_a_prefix. Qed.
+(** The memo that is registered before the scan and filled while the generator yields (seeded fault c19_7): one walk
+    given up after its first item, and the complete walk of that folder lists one file of two. *)
+Theorem c19_walk_memo_while_yielding_refuted :
+  exists (scan : str -> list N) (h : list (str * option nat)) (folder : str),
+    (forall a b : str, a = b -> scan a = scan b)
+    /\ walk_after N scan (fun s => s) WalkMemoWhileYielding h folder <> scan folder
+    /\ walk_after N scan (fun s => s) WalkMemoWhileYielding h folder = [1%N].
+Proof. exact walk_memo_while_yielding_refuted. Qed.
+(** A store with a [yield] still to come puts the code into the refuted class; no store at all into the stateless one. *)
+Theorem c19_census_decides_discipline : forall stores,
+  (no_stores stores = true -> discipline_of stores = WalkStateless)
+  /\ (existsb is_before_yield stores = true -> discipline_of stores = WalkMemoWhileYielding).
+Proof. exact (fun stores => conj (discipline_of_clean stores) (discipline_of_before_yield stores)). Qed.
+(** For the backends of the model: with an empty census of the walk methods, after any history the complete walk is
+    [walk b fs folder], the listing sentence 2 of the property is proved about. *)
+Theorem c19_backend_walk_history : forall c b fs h folder,
+  walk_keeps_no_state c = true ->
+  walk_after file (walk b fs) (fun s => s) (discipline_of (cs_walk c)) h folder = walk b fs folder.
+Proof. exact backend_walk_history. Qed.
+(** Chains: with an empty census of the lookup methods, after any history of lookups, add_sys calls and direct edits of
+    the public list [systems], a lookup is [chain_get] over the members then mounted. *)
+Theorem c19_chain_lookup_history : forall c ms h q,
+  lookups_keep_no_state c = true ->
+  chain_lookup_after (lookup_discipline_of (cs_lookup c)) ms h q = chain_get (members_after ms h) q.
+Proof. exact chain_lookup_history. Qed.
+(** Lookups that remember the index of the member a name was found in (seeded fault c19_8): the name is in the second
+    and third of three members, it is looked up, [systems.pop(0)], it is looked up again - the third member answers. *)
+Theorem c19_chain_position_memo_refuted :
+  let ms := [empty_member; has_x fileA; has_x fileB] in
+  let h := [CLookup [120%N]; CEdit (@tl member)] in
+  chain_lookup_after LookupRemembersPosition ms h [120%N] = Some fileB
+  /\ chain_get (members_after ms h) [120%N] = Some fileA
+  /\ chain_lookup_after LookupStateless ms h [120%N] = Some fileA.
+Proof. exact chain_position_memo_refuted. Qed.
+(** Through add_sys (which resets the positions) the same removal is answered correctly: the fault needs the edit of
+    the public list. *)
+Theorem c19_chain_position_memo_add_sys_resets :
+  let ms := [empty_member; has_x fileA; has_x fileB] in
+  let h := [CLookup [120%N]; CAddSys (@tl member)] in
+  chain_lookup_after LookupRemembersPosition ms h [120%N] = chain_get (members_after ms h) [120%N].
+Proof. exact chain_position_memo_add_sys_resets. Qed.
+
+(** The property over programs: for every configuration the translators can produce - the code shapes ([source_ok], round
+    4) and the census of stores ([state_ok]: every group empty) - the three sentences hold for every single call, and
+    histories of walks / lookups / edits do not change what the calls answer. *)
+Theorem c19_property_over_histories : forall s c,
+  source_ok s = true -> state_ok c = true -> property_holds s /\ histories_irrelevant c.
+Proof. exact property_holds_over_histories. Qed.
+Example c19_property_over_histories_hypotheses_satisfiable :
+  source_ok witness_cfg = true /\ state_ok witness_census = true.
+Proof. exact (conj source_ok_satisfiable state_ok_satisfiable). Qed.
